@@ -4,7 +4,7 @@
 //!
 //! For ONE target file descriptor the shim keeps
 //!   * `LEN`     bytes successfully written so far (the log is append-only, so this is the length),
-//!   * `SYNCED`  the largest `LEN` that was read *before* a data sync that then completed with
+//!   * `SYNCED`  the largest `LEN` that was read on entry to a data sync that then completed with
 //!               success, i.e. a length that is certainly covered by a finished fdatasync,
 //!   * a trace of the write calls `(offset, bytes)` and of the sync calls `(LEN at start)`,
 //! can delay every write / sync by a generated number of microseconds, and can *hold* the k-th
@@ -227,12 +227,14 @@ fn sync_common(fd: c_int, f: extern "C" fn(c_int) -> c_int) -> c_int {
         return f(fd);
     }
     let idx = SYNCS.fetch_add(1, Ordering::SeqCst);
+    // Everything written before the sync is CALLED is covered by it once it has succeeded.  (Bytes
+    // written while the call is held at the gate or delayed below are covered too, in fact; no
+    // caller can know that, so the length is taken on entry.)
+    let covered = LEN.load(Ordering::SeqCst);
     if idx == GATE_SYNC_AT.load(Ordering::SeqCst) {
         gate();
     }
     nap(SYNC_DELAY_US.load(Ordering::Relaxed));
-    // Everything written before the sync starts is covered by it once it has succeeded.
-    let covered = LEN.load(Ordering::SeqCst);
     if in_window(idx, S_FAIL_FROM.load(Ordering::SeqCst), S_FAIL_COUNT.load(Ordering::SeqCst)) {
         FAULT_LOG.lock().unwrap().push(FaultEvent { kind: FaultKind::SyncFailed, idx, len_at: covered, asked: 0, wrote: 0, stamp: tick() });
         set_errno(S_ERRNO.load(Ordering::SeqCst));
